@@ -23,7 +23,7 @@ def plan(tier, seed):
     top = 3 if tier == 'quick' else 5
     specs = [{'part': 'enum', 'face': f, 'top': top} for f in range(12)]
     for i in range(4 if tier == 'quick' else 20):
-        specs.append({'part': 'located', 'n': 660 if tier == 'quick' else 6000})
+        specs.append({'part': 'located', 'n': 800 if tier == 'quick' else 8000})
     return specs
 
 
@@ -136,13 +136,18 @@ def run_shard(spec, ctx):
         ctx.sample({'cell': c, 'r': r, 'ring_segments_1': a5.cell_to_boundary(c, {'segments': 1})})
         return
     for n in range(spec['n']):
-        kind = ('antimeridian', 'polar', 'frame', 'pattern', 'edge', 'meridian87')[n % 6]
+        kind = ('antimeridian', 'polar', 'frame', 'pattern', 'edge', 'meridian87', 'polar_antimeridian', 'equator')[n % 8]
         r = rnd.randint(4, 29)
         try:
             if kind == 'antimeridian':
                 lat = math.degrees(math.asin(rnd.uniform(-1, 1)))
                 d = math.degrees(geo.width(r)) * rnd.uniform(-0.6, 0.6) / max(0.05, math.cos(math.radians(lat)))
                 c = a5.lonlat_to_cell((rnd.choice((180.0, -180.0)) + d, lat), r)
+            elif kind == 'polar_antimeridian':
+                # a cell next to a pole (not necessarily containing it) that lies on the antimeridian / an internal azimuth cut
+                cdist = 10 ** rnd.uniform(math.log10(geo.width(r)) - 0.5, math.log10(geo.width(r)) + 2.5)
+                lat = (90.0 - math.degrees(min(cdist, 0.5))) * rnd.choice((-1, 1))
+                c = a5.lonlat_to_cell((rnd.choice((180.0, -180.0, 87.0, -93.0)) + rnd.uniform(-1, 1) * math.degrees(geo.width(r)) / max(1e-9, cdist), lat), r)
             elif kind == 'meridian87':
                 lat = math.degrees(math.asin(rnd.uniform(-1, 1)))
                 d = math.degrees(geo.width(r)) * rnd.uniform(-0.6, 0.6) / max(0.05, math.cos(math.radians(lat)))
